@@ -240,6 +240,28 @@ impl Chain {
 		}
 		b
 	}
+	/// After blocks were disconnected: drop the given transactions from the mempool, then everything that is
+	/// no longer valid for the next block (locks that are pending again) and everything that has lost a parent.
+	/// Returns the txids dropped.
+	pub fn revalidate_mempool(&mut self, drop: &HashSet<Txid>) -> Vec<Txid> {
+		let pool = std::mem::take(&mut self.mempool);
+		let mut kept: Vec<Transaction> = vec![];
+		let mut kept_ids: HashSet<Txid> = HashSet::new();
+		let mut dropped = vec![];
+		for tx in pool {
+			let txid = tx.compute_txid();
+			let parents_ok = tx.input.iter().all(|i| self.utxos.contains_key(&i.previous_output) || kept_ids.contains(&i.previous_output.txid));
+			let ok = !drop.contains(&txid) && (tx.input.is_empty() || (parents_ok && matches!(self.validate(&tx), TxVerdict::Valid | TxVerdict::ValidChild)));
+			if ok {
+				kept_ids.insert(txid);
+				kept.push(tx);
+			} else {
+				dropped.push(txid);
+			}
+		}
+		self.mempool = kept;
+		dropped
+	}
 	pub fn confirmations(&self, txid: &Txid) -> u32 {
 		match self.confirmed_at.get(txid) {
 			Some(h) => self.height() + 1 - h,
